@@ -94,6 +94,10 @@ class P:
             return ("lit", tok[1]), (WIDTH.get(tok[2]) if tok[2] else None)
         if tok == ("op", "("):
             self.i += 1; e, w = self.expr(); self.eat("op", ")"); return e, w
+        if tok == ("id", "if"):              # `if c { a } else { b }` as an expression
+            self.i += 1; c, _ = self.expr(); self.eat("op", "{"); a, wa = self.expr(); self.eat("op", "}")
+            self.eat("id", "else"); self.eat("op", "{"); b, wb = self.expr(); self.eat("op", "}")
+            return ("ifx", c, a, b), (wa or wb)
         if tok == ("op", "*"):               # dereference of a reference binding: same value
             self.i += 1; return self.atom()
         if tok[0] == "id":
@@ -235,6 +239,10 @@ class Emit:
         if k == "var": return self.v(e[1]), []
         if k == "cast":
             a, fa = self.expr(e[2]); return "(%s %% %d)" % (a, 1 << e[1]), fa
+        if k == "ifx":
+            c, fc = self.expr(e[1]); a, fa = self.expr(e[2]); b, fb = self.expr(e[3])
+            if not self.isbool(e[1]): raise Unsupported("condition is not Boolean")
+            return "(if %s then %s else %s)" % (c, a, b), fc + ["(%s && %s)" % (c, f) for f in fa] + ["(!%s && %s)" % (c, f) for f in fb]
         if k == "call":
             a, fa = self.expr(e[2])
             return "(numOf (%s %s))" % (FN_NAMES[e[1]], a), fa + ["(notNum (%s %s))" % (FN_NAMES[e[1]], a)]
@@ -366,6 +374,19 @@ def generate(read):
         if bits is None: raise Unsupported("%s::read does not start with the reader call" % impl)
         items.append((lean_name, impl + "::read", b, bits))
     reader("AC13Field", "ac13Src"); reader("Altitude", "ac12Src"); reader("IdentityCode", "identitySrc")
+    # the integer `map` closures of the deku attributes: `|x: uN| -> Result<_, DekuError> { body }`
+    adsb = strip_comments(read("libadsb_deku/src/adsb.rs"))
+    def closure(src, field, lean_name):
+        m = None
+        for mm in re.finditer(r'map\s*=\s*"\|(\w+):\s*(\w+)\|\s*->[^{"]*\{([^"]*)\}"[^\]]*\)\]\s*(?:pub\s+)?(\w+)\s*:', src):
+            if mm.group(4) == field and mm.group(2) in WIDTH: m = mm
+        if not m: raise Unsupported("map closure of field %s not found" % field)
+        p = P(tokenize(m.group(3)), m.group(1), WIDTH[m.group(2)])
+        stmts = clean(p.block())
+        if p.peek()[0] != "eof": raise Unsupported("trailing tokens in the closure of " + field)
+        items.append((lean_name, "map closure of `%s`" % field, stmts, None))
+    closure(adsb, "airspeed", "airspeedMapSrc"); closure(adsb, "altitude", "selAltMapSrc"); closure(adsb, "gnss_baro_diff", "gnssDiffMapSrc")
+    closure(adsb, "squawk", "statusSquawkMapSrc"); closure(lib, "id", "df21IdMapSrc")
     out = ["import Adsb.MiniRust", "/-! GENERATED by /verif/tools/rust2lean.py (called from extract.py) from /repo on every run. Do not edit.",
            "Each definition is the body of the named Rust function, statement by statement; `bad` collects the overflow checks. -/",
            "namespace Adsb.Gen", "open Adsb.MiniRust", "set_option linter.unusedVariables false", ""]
